@@ -106,7 +106,7 @@ func c04Answer(sv *harness.Server, q gen.Query, c gen.Client, maxAns int) string
 func runC04(r *report.Run) {
 	r.SetRule("metamorphic pairs: a generated file F and F' = F with random edits touching only records tagged with a foreign location L' (added at existing names, new names, apexes as SOA/NS, wildcards, new delegations, glue of existing NS targets; existing L'-tagged lines deleted) plus subnets of a new map bound to no name (new prefix lengths); both compiled to CDB, RocksDB v1 and v2; every generated query from every client whose location for that name is not L' must get the identical canonical response. non-trivial = (pair, query) where the edit touched the queried name, one of its ancestors or a name below it; distinct by (file, edit, query, client)")
 	r.Assume("clients located in L' itself are sent but not compared (their answers may legitimately change); every other pair runs with the response cache enabled; randomised address selection neutralised with max-answer >= candidates")
-	npairs := r.Pick(40, 2000)
+	npairs := r.Pick(40, 400)
 	for i := 0; i < npairs; i++ {
 		seed := r.Seed*11000027 + int64(i)
 		w := c04World(seed)
